@@ -81,13 +81,30 @@ def run(ctx):
                 t2[i] = (t2[i][0], v[:pos] + ch * rng.choice([1, 2, 3]) + v[pos:])
                 b2 = mtgen.render(t2)
                 inputs.append((b2, "msg", "body-nonascii")); inputs.append((mtgen.rebuild(sp[0], t2, sp[2]) if sp else b2, "msg", "msg-nonascii"))
+            # an option letter the type does not know (every letter, digits too) and a letter on a tag that has none
+            for i, (tag, cn) in enumerate(toks):
+                if len(tag) == 3 and tag[2].isalpha():
+                    alts = [tag[:2] + l for l in rng.sample("EIJMNOQRSTUVWXYZ", 5 if full else 2)] + ([tag[:2] + rng.choice("0123456789")] if full else [])
+                elif len(tag) == 2 and (full or rng.random() < 0.3):
+                    alts = [tag + rng.choice("ABCDEFGHIJKLMNOPQRSTUVWXYZ")]
+                else:
+                    continue
+                for tag2 in alts:
+                    t2 = list(toks); t2[i] = (tag2, cn)
+                    inputs.append((mtgen.render(t2), "msg", "other-letter"))
+            # a badly split batch: the tail of one message, then a message cut before its own terminator
+            if sp:
+                cut = text[:max(text.rfind("-}"), 0)]
+                for tail in ("-}", "\n-}", ":72:END\n-}{5:{CHK:123456789ABC}}", "}-}"):
+                    inputs.append((tail + cut, "msg", "split-batch")); inputs.append((tail + cut[:int(len(cut) * 0.7)], "msg", "split-batch"))
             # a line starting with ':' that is no field marker, content ending in a new line + colon
             for extra in ["\n: NOTE", "\n:-) REGARDS", "\n:123456:X", "\n:", "\n:\n", "\n:2", "\n::"]:
                 i = rng.randrange(len(toks))
                 t2 = list(toks); t2[i] = (t2[i][0], t2[i][1] + extra)
                 inputs.append((mtgen.render(t2), "msg", "colon-line"))
     for d in ["", " ", "\n", "{", "}", "{}", "{1:}", "{4:", "{4:\n-}", "-}", ":", "::", ":20:", ":20:\n", "{1:F01}{2:I103}{4:\n:20:X\n-}", "{" * 200 + "}" * 200, "{4:" * 50,
-              "{1:F01BANKDEFFAXXX0000000000}", "{1:F01BANKDEFFAXXX0000000000}{2:I999BANKUS33XXXXN}{4:\n:20:X\n-}", "\x00", "\ufeff{1:F01BANKDEFFAXXX0000000000}", "{5:{CHK:}}", "{3:{108:}}", "{3:{{{", "{2:O1031200", "{2:I103BANKUS33XXXXN", "{2:é103BANKUS33XXXXN}"]:
+              "{1:F01BANKDEFFAXXX0000000000}", "{1:F01BANKDEFFAXXX0000000000}{2:I999BANKUS33XXXXN}{4:\n:20:X\n-}", "\x00", "\ufeff{1:F01BANKDEFFAXXX0000000000}", "{5:{CHK:}}", "{3:{108:}}", "{3:{{{", "{2:O1031200", "{2:I103BANKUS33XXXXN", "{2:é103BANKUS33XXXXN}",
+              "-}{4:", "-}{1:F01BANKDEFFAXXX0000000000}{2:I199BANKUS33XXXXN}{4:\n:20:X\n:79:Y", "x-}{4:\n:20:REF\n", "-}{3:{108:X}", "-}{5:", "}{4:-}{4:"]:
         inputs.append((d, "all", "degenerate"))
     # field contents with a multi-byte character at each offset
     F = fmtgen.load()
